@@ -161,6 +161,17 @@ def w_plans(idx):
             elif x is not root and j % 5 == 2:
                 x.add_namespace("r%d" % (j % 2), "urn:local")
         evs.append(record_expand(root, {"items": items, "fault": fault, "namespaces": "inner nodes re-declare a prefix of the root / declare their own"}))
+        # the same plan with the optional `system` attribute on the references nodes (and on some definitions): a references
+        # value names an id - whatever attributes the references node carries
+        if i % 2 == 1:
+            Node.store.clear()
+            root = build(items, fault, random.Random(i))
+            for j, x in enumerate(list(walk(root))):
+                if x.name == "references":
+                    x.add_attribute("system", ["knb", "metapype", ""][j % 3])
+                elif x.attributes.get("id") is not None and j % 2:
+                    x.add_attribute("system", "metapype")
+            evs.append(record_expand(root, {"items": items, "fault": fault, "attributes": "system on references nodes / definitions"}))
         # the same plan on a tree that was a branch of a larger document and was taken out with remove_child (its stale
         # parent pointer still names the old holder): the tree handed to expand is the tree that counts
         if i % 2 == 0:
